@@ -418,6 +418,11 @@ func (x *Ctx) depthGuardBefore(fn *ssa.Function, c *ssa.Call) string {
 
 // borrowSetsDepth: recv = parent.borrow…(); in that function every return value has had depth = parent.depth + 1 stored.
 func (x *Ctx) borrowSetsDepth(recv ssa.Value) string {
+	ri := 0
+	if ex, isEx := recv.(*ssa.Extract); isEx {
+		// `h2, tooDeep := h.borrow()` — the reader is one of several results
+		recv, ri = ex.Tuple, ex.Index
+	}
 	call, ok := recv.(*ssa.Call)
 	if !ok || call.Call.StaticCallee() == nil {
 		return "recursion receiver does not come from a borrow function"
@@ -437,7 +442,7 @@ func (x *Ctx) borrowSetsDepth(recv ssa.Value) string {
 		// returned value
 		found := false
 		for _, fs := range stores {
-			if fs.Field != x.fld("depth") || !fs.Always || !fs.Base.isLeaf(ret.Results[0]) || !(fs.At == b || fs.At.Dominates(b)) {
+			if ri >= len(ret.Results) || fs.Field != x.fld("depth") || !fs.Always || !fs.Base.isLeaf(ret.Results[ri]) || !(fs.At == b || fs.At.Dominates(b)) {
 				continue
 			}
 			v := fs.Val
@@ -613,31 +618,96 @@ func isDecodedTreeType(t types.Type) bool {
 // condition is the result of a private single-return predicate helper — that helper's returned expression with its
 // parameters replaced by the arguments.
 func (x *Ctx) condRX(cond ssa.Value) *RX {
-	for depth := 0; depth < 3; depth++ {
-		c, ok := cond.(*ssa.Call)
-		if !ok {
-			break
+	var c *ssa.Call
+	idx := 0
+	switch t := cond.(type) {
+	case *ssa.Call:
+		c = t
+	case *ssa.Extract:
+		// `h2, tooDeep := h.borrow()`: one of several results of a private helper
+		if cc, ok := t.Tuple.(*ssa.Call); ok {
+			c, idx = cc, t.Index
 		}
-		h := c.Call.StaticCallee()
-		if h == nil || !x.isPrivateHelper(h) || len(h.Blocks) != 1 || h.Signature.Results().Len() != 1 || len(h.Params) != len(c.Call.Args) {
-			break
+	}
+	if c == nil {
+		return resolveRX(cond, nil)
+	}
+	h := c.Call.StaticCallee()
+	if h == nil || !x.isPrivateHelper(h) || len(h.Blocks) == 0 || idx >= h.Signature.Results().Len() || len(h.Params) != len(c.Call.Args) {
+		return resolveRX(cond, nil)
+	}
+	var ret *ssa.Return
+	for _, b := range h.Blocks {
+		if r, ok := b.Instrs[len(b.Instrs)-1].(*ssa.Return); ok {
+			if ret != nil {
+				return resolveRX(cond, nil) // several returns: not a simple predicate
+			}
+			ret = r
 		}
-		ret, ok := h.Blocks[0].Instrs[len(h.Blocks[0].Instrs)-1].(*ssa.Return)
-		if !ok {
-			break
-		}
-		// the helper must only compute (no stores, no calls)
-		for _, ins := range h.Blocks[0].Instrs {
-			switch ins.(type) {
-			case *ssa.Store, *ssa.Call, *ssa.MapUpdate, *ssa.Send, *ssa.Go, *ssa.Defer:
-				return nil
+	}
+	if ret == nil || idx >= len(ret.Results) {
+		return resolveRX(cond, nil)
+	}
+	// the returned expression must be evaluated after everything the helper does: its loads sit in the returning
+	// block behind the last store / call
+	lastEffect := -1
+	for i, ins := range ret.Block().Instrs {
+		switch t := ins.(type) {
+		case *ssa.Store, *ssa.MapUpdate, *ssa.Send, *ssa.Go, *ssa.Defer:
+			lastEffect = i
+		case *ssa.Call:
+			if _, isB := t.Call.Value.(*ssa.Builtin); !isB {
+				lastEffect = i
 			}
 		}
-		bind := map[ssa.Value]*RX{}
-		for i, p := range h.Params {
-			bind[p] = resolveRX(c.Call.Args[i], nil)
-		}
-		return resolveRX(ret.Results[0], bind)
 	}
-	return resolveRX(cond, nil)
+	okExpr := true
+	var visit func(v ssa.Value, depth int)
+	visit = func(v ssa.Value, depth int) {
+		if depth > 6 {
+			okExpr = false
+			return
+		}
+		switch t := v.(type) {
+		case *ssa.BinOp:
+			visit(t.X, depth+1)
+			visit(t.Y, depth+1)
+		case *ssa.UnOp:
+			if t.Op == token.MUL {
+				if t.Block() != ret.Block() || instrIndex(t) < lastEffect {
+					okExpr = false
+				}
+				return
+			}
+			visit(t.X, depth+1)
+		case *ssa.Call:
+			okExpr = false
+		}
+	}
+	visit(ret.Results[idx], 0)
+	if !okExpr {
+		return resolveRX(cond, nil)
+	}
+	bind := map[ssa.Value]*RX{}
+	for i, p := range h.Params {
+		bind[p] = resolveRX(c.Call.Args[i], nil)
+	}
+	// the other results of the helper are, in the caller's frame, the results of this call
+	nres := h.Signature.Results().Len()
+	for j, rv := range ret.Results {
+		if j == idx {
+			continue
+		}
+		if _, isC := rv.(*ssa.Const); isC {
+			continue
+		}
+		if _, bound := bind[rv]; !bound {
+			if nres == 1 {
+				bind[rv] = &RX{Call: c, Idx: -1}
+			} else {
+				bind[rv] = &RX{Call: c, Idx: j}
+			}
+		}
+	}
+	return resolveRX(ret.Results[idx], bind)
 }
